@@ -392,10 +392,10 @@ Proof.
   - (* TConnRefuse *) destruct (getc g i) as [c|] eqn:Hg; [|discriminate].
     destruct (hstep (closing g) c (TConnRefuse i)) as [c'|] eqn:Hh; [|discriminate]. inv_some Hs. eapply inv_setc; eauto.
   - (* SockClose *) destruct (getc g i) as [c|] eqn:Hg; [|discriminate].
-    destruct (pc c) eqn:Epc;
-      try (destruct (hstep (closing g) c (SockClose i)) as [c'|] eqn:Hh; [|discriminate]; inv_some Hs; eapply inv_setc; eauto; fail).
-    all: destruct (cl g) as [| |todo| |] eqn:Ecl; try discriminate;
-      destruct (mem_nat i todo) eqn:Em; [|discriminate]; inv_some Hs; eapply inv_close_item; eauto.
+    destruct (hstep (closing g) c (SockClose i)) as [c'|] eqn:Hh; [|discriminate]. inv_some Hs. eapply inv_setc; eauto.
+  - (* SockCloseC *) destruct (getc g i) as [c|] eqn:Hg; [|discriminate].
+    destruct (cl g) as [| |todo| |] eqn:Ecl; try discriminate.
+    destruct (mem_nat i todo) eqn:Em; [|discriminate]. inv_some Hs. eapply inv_close_item; eauto.
   - (* TDec *) destruct (getc g i) as [c|] eqn:Hg; [|discriminate]. destruct (pc c) eqn:Epc; try discriminate. inv_some Hs.
     constructor; cbn.
     + rewrite (count_pc_upd counted _ _ _ (set_pc c CDec) Hg), Epc. cbn. lia.
@@ -596,11 +596,8 @@ Proof.
     unfold getc in Hj; cbn in Hj. apply nth_app_new in Hj as [Hj|[_ ->]]; [eauto|discriminate].
   - (* TRegister *) destruct (getc g i) as [c|] eqn:Hg; [|discriminate]. break_match Hs. inv_some Hs.
     split; [assumption|]. eapply (Hupd i c (set_pc c CReg)); eauto.
-  - (* SockClose *) destruct (getc g i) as [c|] eqn:Hg; [|discriminate].
-    destruct (pc c) eqn:Epc;
-      try (rewrite Hc in Hs; destruct (hstep true c (SockClose i)) as [c'|] eqn:Hh; [|discriminate]; inv_some Hs;
-           split; [assumption|]; eapply Hset; eauto; fail).
-    all: break_match Hs; inv_some Hs; (split; [assumption|]); eapply (Hupd i c (mark_closed c)); eauto.
+  - (* SockCloseC *) destruct (getc g i) as [c|] eqn:Hg; [|discriminate].
+    break_match Hs; inv_some Hs; (split; [assumption|]); eapply (Hupd i c (mark_closed c)); eauto.
   - (* TDec *) destruct (getc g i) as [c|] eqn:Hg; [|discriminate]. break_match Hs. inv_some Hs.
     split; [assumption|]. eapply (Hupd i c (set_pc c CDec)); eauto.
   - (* TDelete *) destruct (getc g i) as [c|] eqn:Hg; [|discriminate]. break_match Hs. inv_some Hs.
@@ -695,11 +692,8 @@ Proof.
     destruct (Nat.eq_dec i0 i) as [->|Hne].
     + rewrite Hg in Hg0. inv_some Hg0. right; right; reflexivity.
     + left. eapply Hset; eauto.
-  - (* SockClose *) destruct (getc g i0) as [c0|] eqn:Hg0; [|discriminate].
-    destruct (pc c0) eqn:Epc;
-      try (destruct (hstep (closing g) c0 (SockClose i0)) as [c0'|] eqn:Hh; [|discriminate]; inv_some Hs;
-           left; eapply Hset; eauto; intros ->; rewrite Hg in Hg0; inv_some Hg0; rewrite Epc in Hf; discriminate).
-    all: break_match Hs; inv_some Hs; left; eapply (Hupd i0 c0 (mark_closed c0)); eauto;
+  - (* SockCloseC *) destruct (getc g i0) as [c0|] eqn:Hg0; [|discriminate].
+    break_match Hs; inv_some Hs; left; eapply (Hupd i0 c0 (mark_closed c0)); eauto;
       intros ->; rewrite Hg in Hg0; inv_some Hg0; cbn; assumption.
   - (* TDec *) destruct (getc g i0) as [c0|] eqn:Hg0; [|discriminate]. break_match Hs. inv_some Hs.
     left. eapply (Hupd i0 c0 (set_pc c0 CDec)); eauto. intros ->. rewrite Hg in Hg0. inv_some Hg0.
